@@ -183,7 +183,22 @@ def audit_theorems(prop, module, theorems):
     return ok, problems
 
 
-def proof_stage(prop, module, vo_rel, theorems):
+def run_coqchk(module):
+    """Independent re-check of the compiled property file and everything it depends on
+    (thorough tier): coqchk must accept it and report no axioms and no disabled checks."""
+    rc, out = sh(["coqchk", "-o", "-silent", "-Q", "theories", "RaftLog", "RaftLog." + module], cwd=COQ, timeout=3000)
+    probs = []
+    if rc != 0:
+        probs.append("coqchk rejected RaftLog.%s: %s" % (module, out[-600:]))
+        return probs
+    for key in ("Axioms:", "type-in-type:", "unsafe (co)fixpoints:", "positivity is assumed:"):
+        m = [l for l in out.splitlines() if key in l]
+        if not m or "<none>" not in m[0]:
+            probs.append("coqchk context summary: %s" % (m[0].strip() if m else key + " line missing"))
+    return probs
+
+
+def proof_stage(prop, module, vo_rel, theorems, coqchk=False):
     """Returns dict(ok, obligations, discharged, problems)."""
     problems = []
     ok_build, out = build_coq_target(vo_rel)
@@ -196,6 +211,8 @@ def proof_stage(prop, module, vo_rel, theorems):
         problems.append("forbidden vernacular: " + "; ".join(bad[:5]))
     good, probs = audit_theorems(prop, module, theorems)
     problems += probs
+    if coqchk:
+        problems += run_coqchk(module)
     return dict(ok=not problems, obligations=len(theorems), discharged=len(good), problems=problems,
                 names=theorems)
 
